@@ -13,6 +13,7 @@ def main(argv=None):
     ap.add_argument('target', nargs='?')
     ap.add_argument('--fn', action='append')
     ap.add_argument('--cls')
+    ap.add_argument('--force', action='append', default=[], help='name=value: fix a case split (e.g. self_lp=_UCB1)')
     ap.add_argument('--tier', default=os.environ.get('VERIF_TIER', 'quick'))
     ap.add_argument('--timeout', type=int, default=20000)
     ap.add_argument('--jobs', type=int, default=16)
@@ -27,7 +28,7 @@ def main(argv=None):
         t0 = time.time()
         obs, probs = [], []
         for q in args.fn:
-            o, p = eng.verify(q, args.cls)
+            o, p = eng.verify(q, args.cls, forced=dict(f.split('=') for f in args.force))
             obs += o
             probs += p
         obs = report.dedupe(obs)
